@@ -63,6 +63,13 @@ class _Subst(ast.NodeTransformer):
         self.env = env
         self.eff = env.get('#eff') if isinstance(env, dict) else None
 
+    def visit_Attribute(self, n):
+        if self.eff:
+            sym = self.eff.get(getattr(n, '_oid', id(n)))
+            if sym is not None:
+                return ast.Name(id=sym, ctx=ast.Load())
+        return self.generic_visit(n)
+
     def visit_Call(self, n):
         if self.eff:
             sym = self.eff.get(getattr(n, '_oid', id(n)))
@@ -481,6 +488,22 @@ class _Exec(object):
         out = []
         for pol, form in ((True, f), (False, negate(f))):
             for conj in dnf(form):
+                # literals between constants are decided here (`None is None`, `0 > 1`)
+                decided_false = False
+                kept = []
+                for lit in conj:
+                    if len(lit) >= 4 and not any(isinstance(x, (ast.Name, ast.Call, ast.Attribute, ast.Subscript)) for x in ast.walk(lit[2])):
+                        try:
+                            from . import evalexpr as _ev
+                            if bool(_ev.ev(lit[2], {})) != lit[3]:
+                                decided_false = True
+                            continue
+                        except Exception:
+                            pass
+                    kept.append(lit)
+                if decided_false:
+                    continue
+                conj = kept
                 conds = st.conds + tuple((lit[0], lit[1], test, e) + tuple(lit[2:4]) for lit in conj)
                 # drop contradictory paths (same literal with both polarities)
                 seen = {}
@@ -497,7 +520,7 @@ class _Exec(object):
     def effect_prepass(self, exprs, st):
         """Calls selected by self.effects (reads / appends on the stream object) get a symbol each, in evaluation order;
         the statement then sees the symbol instead of the call."""
-        calls = [c for e in exprs if e is not None for c in _calls_postorder(e) if self.effects(c)]
+        calls = [c for e in exprs if e is not None for c in _effects_postorder(e) if self.effects(c)]
         if not calls:
             return st
         env = dict(st.env)
@@ -507,7 +530,7 @@ class _Exec(object):
         events = st.events
         for c in calls:
             n += 1
-            sym = '@%s#%d' % (_callee_name(c), n)
+            sym = '@%s#%d' % (_callee_name(c) if isinstance(c, ast.Call) else c.attr, n)
             sx = subst(c, env)      # arguments see the symbols of earlier effects
             eff[getattr(c, '_oid', id(c))] = sym
             events = events + (('effect', sym, c, sx),)
@@ -526,6 +549,38 @@ class _Exec(object):
             # every simple statement leaves a marker carrying the number of conditions established before it
             st = Path(st.conds, st.events + (('stmt', len(st.conds), getattr(s, '_orig', s)),), st.env, None)
         return self._stmt(s, st)
+
+    def value_facts(self, call, st):
+        """`x = helper(args)` where the helper (resolved by the resolver) only computes: no stores, no loops, every path returns
+        or raises.  -> [(condition tuple, returned expression)] for its returning paths, or None."""
+        if self.resolver is None or self.depth >= 3:
+            return None
+        g = self.resolver(call)
+        if g is None or g is self.f:
+            return None
+        params = [a.arg for a in g.args.args]
+        if params and params[0] in ('self', 'cls') and isinstance(call.func, ast.Attribute):
+            params = params[1:]
+        env = {}
+        for pn, a in zip(params, call.args):
+            env[pn] = self.sx(a, st)
+        for k in call.keywords:
+            if k.arg:
+                env[k.arg] = self.sx(k.value, st)
+        if len(env) < len(params) - len(g.args.defaults):
+            return None
+        for pn, d in zip(params[len(params) - len(g.args.defaults):], g.args.defaults):
+            env.setdefault(pn, clone(d))
+        try:
+            ps = _Exec(g, max_paths=32, resolver=self.resolver, depth=self.depth + 1, init_env=env).run()
+        except TooManyPaths:
+            return None
+        if any(ev[0] in ('store', 'loop') for p in ps for ev in p.events):
+            return None
+        rets = [p for p in ps if p.outcome[0] == 'return']
+        if not rets or any(p.outcome[0] not in ('return', 'raise') for p in ps) or len(rets) > 8:
+            return None
+        return [(p.conds, p.outcome[3]) for p in rets]
 
     def checker_facts(self, call, st):
         """`self.helper(args)` / `helper(args)` used as a statement where the helper only checks (raises or returns
@@ -590,13 +645,26 @@ class _Exec(object):
                     out.extend(self._stmt(s2, st2))
                 return out
             evs = self.record_calls(s.value, st)
+            if isinstance(s.value, ast.Call) and self.resolver is not None:
+                vf = self.value_facts(s.value, st)
+                if vf is not None:
+                    out = []
+                    for conds, rv in vf:
+                        env = dict(st.env)
+                        events = st.events + tuple(evs)
+                        for tg in targets:
+                            self.assign(tg, rv, env, st, s)
+                            if isinstance(tg, (ast.Attribute, ast.Subscript)):
+                                events = events + (('store', '%s = %s' % (ctext(subst(tg, st.env)), ctext(rv)), s, rv, len(st.conds) + len(conds)),)
+                        out.append(Path(st.conds + conds, events, env, None))
+                    return out
             v = self.sx(s.value, st)
             env = dict(st.env)
             events = st.events + tuple(evs)
             for tg in targets:
                 self.assign(tg, v, env, st, s)
                 if isinstance(tg, (ast.Attribute, ast.Subscript)):
-                    events = events + (('store', '%s = %s' % (ctext(subst(tg, st.env)), ctext(v)), s),)
+                    events = events + (('store', '%s = %s' % (ctext(subst(tg, st.env)), ctext(v)), s, v, len(st.conds)),)
             return [Path(st.conds, events, env, None)]
         if isinstance(s, ast.AugAssign):
             evs = self.record_calls(s.value, st)
@@ -731,6 +799,33 @@ def _dedupe(evs):
             seen.add(k)
             out.append(e)
     return out
+
+
+def _effects_postorder(e):
+    """Calls and (non-callee) attribute reads of e in evaluation order."""
+    res = []
+
+    class V(ast.NodeVisitor):
+        def visit_Call(s, n):
+            if isinstance(n.func, ast.Attribute):
+                s.visit(n.func.value)
+            else:
+                s.visit(n.func)
+            for a in n.args:
+                s.visit(a)
+            for k in n.keywords:
+                s.visit(k.value)
+            res.append(n)
+
+        def visit_Attribute(s, n):
+            s.visit(n.value)
+            if isinstance(n.ctx, ast.Load):
+                res.append(n)
+
+        def visit_Lambda(s, n):
+            pass
+    V().visit(e)
+    return res
 
 
 def _calls_postorder(e):
